@@ -213,7 +213,7 @@ Example C11_witness_auth_gate :
              [(0%Z, ident_tls); (1%Z, CAuth true (Some [115])); (2%Z, CPub [tA] true);
               (3%Z, CSub [tA; chX]); (4%Z, CPub [tB] true); (5%Z, CPub [tA] true)] in
   resps_of r = [[RIdent true true; ROk]; [RAuthOk 1]; [ROk]; [ROk]; [RErr E_UNAUTHORIZED true]] /\
-  fx_of r = [[FxUpgradeTLS]; [FxAuthQuery [115] true]; [FxGetTopic tA; FxPut tA 1];
+  fx_of r = [[FxUpgradeTLS]; [FxAuthQuery [115] true CertNone]; [FxGetTopic tA; FxPut tA 1];
              [FxGetTopic tA; FxGetChannel tA chX; FxAddClient tA chX]; []].
 Proof. vm_compute. split; reflexivity. Qed.
 
@@ -244,7 +244,7 @@ Proof. vm_compute. repeat split; reflexivity. Qed.
 (* each branch of the decision table is inhabited *)
 Example C11_witness_decision :
   let cfg := mkCfg TlsNotRequired false PolNone 2 in
-  let cached := mkConn StInit false (Some (mkAS [grantA] 5000%Z)) [115] false in
+  let cached := mkConn StInit false (Some (mkAS [grantA] 5000%Z)) [115] false CertNone in
   decision kp_match kp_ok cfg 0%Z conn_init [] tA [] = Some E_AUTH_FIRST /\
   decision kp_match kp_ok cfg 5000%Z cached [] tA [] = None /\
   decision kp_match kp_ok cfg 5000%Z cached [] tB [] = Some E_UNAUTHORIZED /\
